@@ -134,13 +134,23 @@ func (s *JSONDB) ReadStatusRecent(dagFile string, n int) []*model.StatusFile {
 }
 
 func (s *JSONDB) ReadStatusToday(dagFile string) (*model.Status, error) {
-	file, err := s.latestToday(dagFile, time.Now(), s.latestStatusToday)
+	files, err := s.latestToday(dagFile, time.Now(), s.latestStatusToday)
 	if err != nil {
 		return nil, err
 	}
-	return s.cache.LoadLatest(file, func() (*model.Status, error) {
-		return ParseFile(file)
-	})
+	for _, file := range files {
+		status, err := s.cache.LoadLatest(file, func() (*model.Status, error) {
+			return ParseFile(file)
+		})
+		// A file without a complete status line is what a process leaves
+		// behind when it dies right after creating it (a new run file, or
+		// the compacted copy). It must not hide the latest recorded status.
+		if errors.Is(err, io.EOF) {
+			continue
+		}
+		return status, err
+	}
+	return nil, persistence.ErrNoStatusDataToday
 }
 
 func (s *JSONDB) FindByRequestID(dagFile string, requestID string) (*model.StatusFile, error) {
@@ -280,7 +290,7 @@ func (s *JSONDB) newFile(dagFile string, t time.Time, requestID string) (string,
 	), nil
 }
 
-func (s *JSONDB) latestToday(dagFile string, day time.Time, latestStatusToday bool) (string, error) {
+func (s *JSONDB) latestToday(dagFile string, day time.Time, latestStatusToday bool) ([]string, error) {
 	var pattern string
 	if latestStatusToday {
 		pattern = fmt.Sprintf("%s.%s*.*.dat", globEscape(s.prefixWithDirectory(dagFile)), day.Format(dateFormat))
@@ -289,13 +299,9 @@ func (s *JSONDB) latestToday(dagFile string, day time.Time, latestStatusToday bo
 	}
 	matches, err := filepath.Glob(pattern)
 	if err != nil || len(matches) == 0 {
-		return "", persistence.ErrNoStatusDataToday
+		return nil, persistence.ErrNoStatusDataToday
 	}
-	ret := filterLatest(matches, 1)
-	if len(ret) == 0 {
-		return "", persistence.ErrNoStatusData
-	}
-	return ret[0], nil
+	return filterLatest(matches, len(matches)), nil
 }
 
 func (s *JSONDB) latest(pattern string, n int) []string {
